@@ -243,9 +243,18 @@ def case(ctx, rng, idx):
     def fail(tag, what):
         ctx.violation(tag, what, w)
 
-    for step in range(rng.randint(3, 8)):
-        op = rng.choice(OPS)
-        i = rng.randrange(len(pool))
+    forced = None
+    nsteps = rng.randint(3, 8)
+    step = 0
+    while step < nsteps or forced:
+        step += 1
+        if forced:
+            # "second look": the application just checked is repeated on the same operand object(s) after an in-place edit of
+            # the left operand that only REMOVED terms (a memo keyed on "something was stored" would survive it)
+            op, i = forced[0], forced[1]
+        else:
+            op = rng.choice(OPS)
+            i = rng.randrange(len(pool))
         a, pa = pool[i], refs[i]
         T = type(a)
         tn = T.__name__
@@ -260,13 +269,19 @@ def case(ctx, rng, idx):
             okind = rng.choice(["dict", "num"])
         else:
             okind = None
+        if forced:
+            okind = forced[2]
         if okind == "model":
-            j = rng.randrange(len(pool))
+            j = forced[3][1] if forced else rng.randrange(len(pool))
             b, pb = pool[j], refs[j]
             if j == i:
                 okind = "self"
             bdesc = ("pool", j)
-        if okind == "self":
+        if forced and okind in ("dict", "num"):
+            bdesc = forced[3]
+            b = dict(bdesc[1]) if okind == "dict" else bdesc[1]
+            pb = ref.from_raw(kind, b) if okind == "dict" else Poly.const(kind, b)
+        elif okind == "self":
             b, pb = a, pa
             bdesc = "self"
             ctx.cat("alias:self-operand")
@@ -293,7 +308,7 @@ def case(ctx, rng, idx):
             exp = pa * pb
             may_overflow = deg2 and okind != "num" and formal_overflow(kind, pa, pb, raw_b=b if okind == "dict" else None)
         elif op in ("pow", "ipow"):
-            expo = rng.randint(1, 5)
+            expo = forced[4] if forced else rng.randint(1, 5)
             if len(pa.d) > 4 and expo > 3:
                 expo = 3
             exp = pa
@@ -302,9 +317,9 @@ def case(ctx, rng, idx):
                 exp = exp * pa
             bdesc = ("exp", expo)
         elif op in ("truediv", "itruediv"):
-            divc = rng.choice([2, -4, 0.5, -1])
+            divc = forced[5] if forced else rng.choice([2, -4, 0.5, -1])
             from fractions import Fraction as _F
-            if len(a) and all(isinstance(v, _F) for v in a.values()):
+            if not forced and len(a) and all(isinstance(v, _F) for v in a.values()):
                 # exact rational coefficients stay exact under division by an integer: divisors that floats cannot invert
                 divc = rng.choice([3, 7, -6, 10, 49])
                 ctx.cat("division:exact-rational")
@@ -332,7 +347,9 @@ def case(ctx, rng, idx):
         if len(exp.d) > 80 or (exp.d and max(abs(v.numerator) for v in exp.d.values()).bit_length() +
                                max(v.denominator for v in exp.d.values()).bit_length() > 44):
             ctx.cat("skipped:float-exactness-guard")
+            forced = None
             continue
+        was_forced, forced = forced, None
         prog.append([op, i, bdesc])
         ctx.cat("app:%s:%s" % (op, tn))
         sa, sb = snapshot(a), snapshot(b)
@@ -450,7 +467,41 @@ def case(ctx, rng, idx):
                 refs.append(exp)
             else:
                 j = rng.randrange(len(pool))
+                while j == i:
+                    j = rng.randrange(len(pool))
                 pool[j], refs[j] = r, exp
+            if not was_forced and not terminal and len(a) and okind in (None, "dict", "num", "model", "self") and rng.random() < 0.2 \
+                    and pool[i] is a:
+                # removal-only in-place edit of the left operand, then the same application again
+                k0 = rng.choice(list(a))
+                how = rng.choice(["set0", "isub-own-coefficient", "isub-dict", "imul0", "pop-style-update"])
+                try:
+                    if how == "set0":
+                        a[k0] = 0
+                    elif how == "isub-own-coefficient":
+                        a[k0] -= a[k0]
+                    elif how == "isub-dict":
+                        a -= {k0: a[k0]}
+                    elif how == "pop-style-update":
+                        a.update({k0: 0})
+                    else:
+                        a *= 0
+                except Exception as e:   # noqa
+                    fail("removal-edit:raises-%s" % type(e).__name__, "%s on key %r raised %r" % (how, k0, e))
+                    return
+                npa = Poly(kind)
+                if how != "imul0":
+                    ck = pa.canon(tuple(k0))
+                    for kk_, vv_ in pa.d.items():
+                        if kk_ != ck:
+                            npa.add(kk_, vv_)
+                refs[i] = npa
+                if ref.from_raw(kind, dict(a)) != npa:
+                    fail("removal-edit:wrong-result", "%s of key %r left %r, expected %r" % (how, k0, dict(a), npa.show()))
+                    return
+                prog.append(["remove-only-edit", i, how, k0])
+                ctx.cat("second-look:after-removal-only-edit")
+                forced = (op, i, okind, bdesc, expo, divc)
     # ---- evaluation ---------------------------------------------------------------------
     vals = (0, 1) if kind == "bool" else (1, -1)
     fn = {"bool": [L.utils.pubo_value, L.utils.qubo_value], "spin": [L.utils.puso_value, L.utils.quso_value]}[kind]
